@@ -16,6 +16,7 @@ pub mod c12;
 pub mod c13;
 pub mod c16;
 pub mod c17;
+pub mod c18;
 
 pub fn run(ctx: &Ctx) -> Option<PropReport> {
     Some(match ctx.prop.as_str() {
@@ -34,6 +35,7 @@ pub fn run(ctx: &Ctx) -> Option<PropReport> {
         "C13" => c13::run(ctx),
         "C16" => c16::run(ctx),
         "C17" => c17::run(ctx),
+        "C18" => c18::run(ctx),
         _ => return None,
     })
 }
@@ -55,6 +57,7 @@ pub fn replay(ctx: &Ctx, sub: &str, case: &Value) -> Result<(), Fail> {
         "C13" => c13::replay(ctx, sub, case),
         "C16" => c16::replay(ctx, sub, case),
         "C17" => c17::replay(ctx, sub, case),
+        "C18" => c18::replay(ctx, sub, case),
         _ => Err(Fail::new("replay-unsupported", "no replay for this property")),
     }
 }
